@@ -2618,7 +2618,8 @@ static int32_t pstm_invmod_slow(psPool_t *pool, const pstm_int *a,
     }
 
     /* 2. [modified] if x,y are both even then return an error! */
-    if (pstm_iseven(&x) == 1 && pstm_iseven(&y) == 1)
+    /* (zero is even too: a multiple of an even modulus has no inverse) */
+    if ((pstm_iseven(&x) == 1 || pstm_iszero(&x) == 1) && pstm_iseven(&y) == 1)
     {
         res = PS_FAILURE;
         goto LBL_Y;
@@ -2963,6 +2964,14 @@ top:
     while (D.sign == PSTM_NEG)
     {
         if ((res = pstm_add(&D, b, &D)) != PSTM_OKAY)
+        {
+            goto LBL_D;
+        }
+    }
+    /* reduce into [0, b) */
+    while (pstm_cmp_mag(&D, b) != PSTM_LT)
+    {
+        if ((res = pstm_sub(&D, b, &D)) != PSTM_OKAY)
         {
             goto LBL_D;
         }
